@@ -185,7 +185,7 @@ def run(ctx):
             ctx.violation('memory error (ASan) while parsing %s: %s' % (bad, r.stderr[-600:]), {'class': {'feature': 'asan'}, 'line': bad})
             return
         raise vlib.MachineryError('driver answered %d of %d (rc=%s) %s' % (len(outs), len(lines), r.returncode, r.stderr[-800:]))
-    prej, irej = conformance(ctx, os.path.join(SPEC, 'Conf_UriModel.tla'), os.path.join(SPEC, 'Conf_UriModel.cfg'), outs, 'uri')
+    prej, irej = conformance(ctx, os.path.join(SPEC, 'Conf_UriModel.tla'), os.path.join(SPEC, 'Conf_UriModel.cfg'), outs, 'uri', timeout=3000)
     ctx.log('TLC evaluated %d cases: P-rejected %d, I-rejected %d' % (len(outs), len(prej), len(irej)))
     known = load_known('C30')
     iset, hist = set(irej), {}
